@@ -1649,7 +1649,16 @@ class PqaddHooks(SendHooks):
         self.site('pqadd:one-queue-entry-per-existing-channel-file-else-pqdone', None, got == want, 'local=%s remote=%s: inserts %s, expected %s' % (c0, c1, got, want), E)
 
 
+def require_globals(db, *names):
+    """rules that speak of the daemon's queues by their names (pqchan, pqfail, pqdone, ...) are undecided - not violated - when such a global is renamed"""
+    g = db.unit('qmail-send.c').globals
+    gone = [n for n in names if n not in g]
+    if gone:
+        raise AnalysisBroken('qmail-send.c: the global(s) %s named by this rule no longer exist (renamed?): the rule cannot be decided' % ', '.join(gone))
+
+
 def analyse_pqadd(db, rep):
+    require_globals(db, 'pqfail', 'pqdone', 'pqchan')
     prog = db.program('qmail-send')
     fn = prog.fn('pqadd', 'qmail-send.c')
     H = PqaddHooks()
